@@ -19,6 +19,17 @@ CHECKS = {
              "of the module body followed only by the generated trait+impl and the re-export (mod), or equal to the inherent impl's body (impl).",
         note=NOTE, technique="bounded-exhaustive enumeration of programs; token-tree comparison of recorded macro input vs output (identity model)",
         ref="DESIGN.md §3 C02"),
+    "C03": dict(
+        text="8 dependency forms (&impl, &D inline / where-bound, by-value generic / impl, concrete by reference and by value, no_deps) x every "
+             "extra-parameter word <= 1 (quick) / <= 2 (thorough) over {i64, &X elided, &'b X named, T: Bound inline, U where-bound, [u8; N] with const N, impl "
+             "Trait} x qualifiers {none, async, unsafe, extern \"C\", unsafe extern \"C\"} x 9 return kinds (unit, owned, borrowed from deps elided / named, "
+             "borrowed from an argument, generic T, Result, Option<&'a>, impl Trait) x options {none, mock_api, mockall, ?Send} x both features (~8.6k states "
+             "in quick). Each state is compiled to a fixpoint (every rustc error attributed to its state, borrowck included) and run; for sync fns the function "
+             "and the trait method must both coerce to the one most-general fn-pointer type written by the generator (higher-ranked lifetimes, unsafe / extern "
+             "qualifiers), for async fns the Output is ascribed; scope witnesses check that a return borrowed from deps does not depend on the arguments and "
+             "vice versa; the direct and the trait call must return the model's value.",
+        note=NOTE, technique="bounded-exhaustive enumeration of signatures on the real macro; fixpoint compilation + fn-pointer coercion witnesses + executed client",
+        ref="DESIGN.md §3 C03"),
     "C04": dict(
         text="All 8 subsets S of three marker bounds x 5 declaration forms (inline, where, impl A+B, split, duplicated) x receiver by ref/by value "
              "x 6 mock settings (none, mockall, mockall=false, mock_api only, mock_api+unimock, unimock=false) x both crate features for single fns, and "
